@@ -117,6 +117,36 @@ type Case struct {
 	CliSpelling string   `json:"cliSpelling,omitempty"` // long: --path DIR | longEq: --path=DIR (default: -p DIR)
 	CliRel      bool     `json:"cliRel,omitempty"`      // the directory is passed relative to the working directory
 	CliDep      bool     `json:"cliDep,omitempty"`      // the dependence file is named explicitly (its default path)
+	// the working directory is not fresh (sub-check cli; zero value = a fresh working directory and -f)
+	History []HistStep `json:"history,omitempty"` // what happened in the working directory before the judged commands
+	NoForce bool       `json:"noForce,omitempty"` // `coca api` without -f; honoured only when the history leaves no coca_reporter/apis.json
+}
+
+// HistStep: one thing that happened earlier in the working directory of the judged `coca analysis` + `coca api -f`
+type HistStep struct {
+	// Kind: run = `coca analysis -p A` + `coca api [-f] [options] -p A` of a project A | file = a file left in coca_reporter
+	Kind string `json:"kind"`
+	// run: Of = whole (the whole project) | sub (Subs[Sub]) | noHandlers (the classes of the project that are no
+	// controllers; an empty directory when there are none) | foreign (a fixed project of another code base)
+	Of       string   `json:"of,omitempty"`
+	Sub      int      `json:"sub,omitempty"`
+	Force    bool     `json:"force,omitempty"`    // the earlier `coca api` was given -f
+	Flags    []string `json:"flags,omitempty"`    // -c -s -a -r of the earlier `coca api`
+	SamePath bool     `json:"samePath,omitempty"` // A lay at the path of the judged project (an older state of it) and was replaced
+	// file: File = apis.json | api.csv | api.dot, Content = foreign (what a run on the foreign project writes) and, for
+	// apis.json, null | emptyList | truncated (the first half of foreign) | empty (zero bytes)
+	File    string `json:"file,omitempty"`
+	Content string `json:"content,omitempty"`
+}
+
+// leavesApis: after these steps coca_reporter/apis.json exists
+func leavesApis(h []HistStep) bool {
+	for _, s := range h {
+		if s.Kind == "run" || s.File == "apis.json" {
+			return true
+		}
+	}
+	return false
 }
 
 func (m Method) isHandler() bool {
@@ -779,7 +809,50 @@ func genCliCase(t *rapid.T) Case {
 	}
 	c.CliRel = rarely(t, 3, "cliRel")
 	c.CliDep = rarely(t, 3, "cliDep")
+	// the working directory has a past: no step in 4 of 7 cases, one in 2, two in 1
+	for i, n := 0, []int{0, 0, 0, 0, 1, 1, 2}[rapid.IntRange(0, 6).Draw(t, "nHistory")]; i < n; i++ {
+		c.History = append(c.History, genHistStep(t, len(c.Subs)))
+	}
+	if !leavesApis(c.History) {
+		// nothing to read back: without -f the list is extracted all the same
+		c.NoForce = rarely(t, 3, "noForce")
+	}
 	return c
+}
+
+// genHistStep draws one earlier event of the working directory; every draw shrinks towards an earlier plain
+// `coca analysis` + `coca api` of the whole project
+func genHistStep(t *rapid.T, nSubs int) HistStep {
+	if rapid.IntRange(0, 9).Draw(t, "histKind") >= 6 {
+		h := HistStep{Kind: "file", Content: "foreign"}
+		h.File = rapid.SampledFrom([]string{"apis.json", "apis.json", "apis.json", "api.csv", "api.dot"}).Draw(t, "histFile")
+		if h.File == "apis.json" {
+			h.Content = rapid.SampledFrom([]string{"foreign", "null", "emptyList", "truncated", "empty"}).Draw(t, "histContent")
+		}
+		return h
+	}
+	h := HistStep{Kind: "run", Of: "whole"}
+	switch rapid.IntRange(0, 5).Draw(t, "histOf") {
+	case 2, 3:
+		if nSubs > 0 {
+			h.Of = "sub"
+			h.Sub = rapid.IntRange(0, nSubs-1).Draw(t, "histSub")
+		} else {
+			h.Of = "noHandlers"
+		}
+	case 4:
+		h.Of = "noHandlers"
+	case 5:
+		h.Of = "foreign"
+	}
+	h.Force = rapid.Bool().Draw(t, "histForce")
+	for _, f := range []string{"-c", "-s", "-a", "-r"} {
+		if rarely(t, 3, "histFlag"+f) {
+			h.Flags = append(h.Flags, f)
+		}
+	}
+	h.SamePath = rarely(t, 2, "histSamePath")
+	return h
 }
 
 func genSeqCase(t *rapid.T) Case {
@@ -1344,36 +1417,95 @@ func scanCLI(dir string, c Case, prefix string) ([]Entry, string) {
 	show := func(args []string) string {
 		return "`coca " + strings.ReplaceAll(strings.Join(args, " "), src, "DIR") + "`"
 	}
+	// apiOptions: the options of `coca api` behind -f, for the directory as it is passed
+	apiOptions := func(srcArg string, flags []string) (rest []string, aggregate string, removed bool) {
+		rest = opt("p", "path", srcArg)
+		for _, f := range flags {
+			switch f {
+			case "-a":
+				aggregate = prefix
+				if aggregate == "" {
+					aggregate = "/a"
+				}
+				rest = append(rest, opt("a", "aggregate", aggregate)...)
+			case "-r":
+				removed = true
+				rest = append(rest, opt("r", "remove", "com.acme")...)
+			case "-c":
+				rest = append(rest, opt("c", "count", "")...)
+			case "-s":
+				rest = append(rest, opt("s", "sort", "")...)
+			}
+		}
+		if c.CliDep {
+			rest = append(rest, opt("d", "dependence", filepath.Join("coca_reporter", "deps.json"))...)
+		}
+		return
+	}
+	// the past of the working directory: earlier runs on other projects (or on an older state of this one) and
+	// files left in coca_reporter. What these steps print or return is not judged (their projects are judged
+	// when they are the project of the case): they only leave their files behind.
+	for i, h := range c.History {
+		switch h.Kind {
+		case "file":
+			cli.WriteTree(filepath.Join(cwd, "coca_reporter"), map[string]string{h.File: staleContent(h.File, h.Content)})
+		case "run":
+			files := historyProject(c, h)
+			hdir, harg := filepath.Join(dir, fmt.Sprintf("hist%d", i)), filepath.Join("..", fmt.Sprintf("hist%d", i))
+			if h.SamePath {
+				// an older state of the judged project: same path, other content; put back afterwards
+				hdir, harg = filepath.Join(dir, "src"), filepath.Join("..", "src")
+				if err := os.Rename(hdir, filepath.Join(dir, "src_judged")); err != nil {
+					panic("c12 harness: " + err.Error())
+				}
+			}
+			if !c.CliRel {
+				harg = hdir
+			}
+			if c.DirSlash {
+				harg += "/"
+			}
+			_ = os.MkdirAll(hdir, 0755)
+			cli.WriteTree(hdir, files)
+			timedOut, failed := false, false
+			hrest, _, _ := apiOptions(harg, h.Flags)
+			hargs := []string{"api"}
+			if h.Force {
+				hargs = append(hargs, opt("f", "force", "")...)
+			}
+			for _, args := range [][]string{append([]string{"analysis"}, opt("p", "path", harg)...), append(hargs, hrest...)} {
+				r, err := cli.Run("coca", cwd, nil, args...)
+				timedOut = timedOut || (err == nil && r.TimedOut)
+				failed = failed || err != nil || r.ExitCode != 0
+			}
+			if h.SamePath {
+				_ = os.RemoveAll(hdir)
+				if err := os.Rename(filepath.Join(dir, "src_judged"), hdir); err != nil {
+					panic("c12 harness: " + err.Error())
+				}
+			}
+			if timedOut {
+				return nil, cliTimeout
+			}
+			if failed {
+				pbt.Count("cli_history_run_failed", 1)
+			}
+		}
+	}
+	past := historyText(c.History)
 	analysis := append([]string{"analysis"}, opt("p", "path", src)...)
 	if r, err := cli.Run("coca", cwd, nil, analysis...); err == nil && r.TimedOut {
 		return nil, cliTimeout
 	} else if err != nil || r.ExitCode != 0 {
-		return nil, fmt.Sprintf("%s failed: %v exit=%d\n%s%s", show(analysis), err, r.ExitCode, tail(r.Stdout), tail(r.Stderr))
+		return nil, fmt.Sprintf("%s%s failed: %v exit=%d\n%s%s", past, show(analysis), err, r.ExitCode, tail(r.Stdout), tail(r.Stderr))
 	}
-	rest := opt("p", "path", src)
-	aggregate, removed := "", false
-	for _, f := range flags {
-		switch f {
-		case "-a":
-			aggregate = prefix
-			if aggregate == "" {
-				aggregate = "/a"
-			}
-			rest = append(rest, opt("a", "aggregate", aggregate)...)
-		case "-r":
-			removed = true
-			rest = append(rest, opt("r", "remove", "com.acme")...)
-		case "-c":
-			rest = append(rest, opt("c", "count", "")...)
-		case "-s":
-			rest = append(rest, opt("s", "sort", "")...)
-		}
+	rest, aggregate, removed := apiOptions(src, flags)
+	args := []string{"api"}
+	if !(c.NoForce && !leavesApis(c.History)) {
+		args = append(args, opt("f", "force", "")...)
 	}
-	if c.CliDep {
-		rest = append(rest, opt("d", "dependence", filepath.Join("coca_reporter", "deps.json"))...)
-	}
-	args := append(append([]string{"api"}, opt("f", "force", "")...), rest...)
-	shown := show(args)
+	args = append(args, rest...)
+	shown := past + show(args)
 	if r, err := cli.Run("coca", cwd, nil, args...); err == nil && r.TimedOut {
 		return nil, cliTimeout
 	} else if err != nil || r.ExitCode != 0 {
@@ -1449,6 +1581,89 @@ func scanCLI(dir string, c Case, prefix string) ([]Entry, string) {
 		}
 	}
 	return toEntries(apis), ""
+}
+
+// the foreign project: a controller of another code base; what a run on it writes is known by construction
+const foreignSource = "package org.legacy.billing;\n\nimport org.springframework.web.bind.annotation.*;\n\n@RestController\n@RequestMapping(\"/legacy\")\npublic class InvoiceController {\n" +
+	"    @GetMapping(\"/invoices\")\n    public String invoices() {\n        return null;\n    }\n\n" +
+	"    @PostMapping(\"/invoices\")\n    public String create(@RequestBody InvoiceDto dto) {\n        return null;\n    }\n}\n"
+
+var foreignApis = []api_domain.RestAPI{
+	{Uri: "/legacy/invoices", HttpMethod: "GET", MethodName: "invoices", PackageName: "org.legacy.billing", ClassName: "InvoiceController"},
+	{Uri: "/legacy/invoices", HttpMethod: "POST", MethodName: "create", RequestBodyClass: "InvoiceDto", MethodParams: map[string]string{"dto": "InvoiceDto"}, PackageName: "org.legacy.billing", ClassName: "InvoiceController"},
+}
+
+// historyProject: the files of the project an earlier run of the working directory was given
+func historyProject(c Case, h HistStep) map[string]string {
+	switch h.Of {
+	case "foreign":
+		mustParse(foreignSource)
+		return map[string]string{"org/legacy/billing/InvoiceController.java": foreignSource}
+	case "sub":
+		if h.Sub >= 0 && h.Sub < len(c.Subs) {
+			return fileTree(c, c.Subs[h.Sub])
+		}
+	case "noHandlers":
+		var seq []int
+		for _, idx := range c.Order {
+			if len(expected(c.Classes[idx])) == 0 {
+				seq = append(seq, idx)
+			}
+		}
+		return fileTree(c, seq)
+	}
+	return fileTree(c, c.Order)
+}
+
+// staleContent: a file of coca_reporter as an earlier run (on the foreign project, on a project without
+// handlers, or interrupted while writing) left it
+func staleContent(file, content string) string {
+	list, _ := json.MarshalIndent(foreignApis, "", "\t")
+	switch file {
+	case "api.csv":
+		return "  SIZE , METHOD , URI , CALLER  \n  1 , GET , /legacy/invoices , org.legacy.billing.InvoiceController.invoices  \n  1 , POST , /legacy/invoices , org.legacy.billing.InvoiceController.create  \n"
+	case "api.dot":
+		return "digraph G { \n\"GET /legacy/invoices\" -> \"org.legacy.billing.InvoiceController.invoices\";\n}\n"
+	}
+	switch content {
+	case "null":
+		return "null"
+	case "emptyList":
+		return "[]"
+	case "truncated":
+		return string(list[:len(list)/2])
+	case "empty":
+		return ""
+	}
+	return string(list)
+}
+
+// historyText names the past of the working directory in failure messages (a pure function of the case)
+func historyText(h []HistStep) string {
+	if len(h) == 0 {
+		return ""
+	}
+	var parts []string
+	for _, s := range h {
+		if s.Kind == "file" {
+			parts = append(parts, fmt.Sprintf("coca_reporter/%s left behind (%s)", s.File, s.Content))
+			continue
+		}
+		what := map[string]string{"whole": "the whole project", "sub": fmt.Sprintf("sub-project %d", s.Sub), "noHandlers": "the classes without handlers", "foreign": "a foreign project"}[s.Of]
+		cmd := "`coca analysis` + `coca api"
+		if s.Force {
+			cmd += " -f"
+		}
+		if len(s.Flags) > 0 {
+			cmd += " " + strings.Join(s.Flags, " ")
+		}
+		cmd += "` on " + what
+		if s.SamePath {
+			cmd += " at the path of the judged project (then replaced)"
+		}
+		parts = append(parts, cmd)
+	}
+	return "in a working directory with a past [" + strings.Join(parts, "; ") + "]: "
 }
 
 func sortedLines(s string) string {
@@ -1919,6 +2134,33 @@ func classify(c Case) pbt.Verdict {
 	mark(labels, c.CliSpelling != "", "cli_options_"+c.CliSpelling)
 	mark(labels, c.CliRel, "cli_relative_directory")
 	mark(labels, c.CliDep, "cli_explicit_dependence_file")
+	// the past of the working directory (sub-check cli)
+	mark(labels, len(c.History) > 0, "workdir_with_a_past")
+	mark(labels, len(c.History) > 1, "workdir_past_of_several_steps")
+	mark(labels, leavesApis(c.History), "workdir_holds_an_earlier_apis.json")
+	mark(labels, c.NoForce && !leavesApis(c.History), "cli_without_force_nothing_to_read_back")
+	for _, h := range c.History {
+		if h.Kind == "file" {
+			labels["workdir_stale_"+h.File+"_"+h.Content] = true
+			continue
+		}
+		of := h.Of
+		if of == "sub" && (h.Sub < 0 || h.Sub >= len(c.Subs)) || of == "" {
+			of = "whole"
+		}
+		labels["workdir_earlier_run_on_"+of] = true
+		mark(labels, h.Force, "workdir_earlier_run_with_force")
+		mark(labels, !h.Force, "workdir_earlier_run_without_force")
+		mark(labels, len(h.Flags) > 0, "workdir_earlier_run_with_options")
+		mark(labels, h.SamePath, "workdir_earlier_run_at_the_same_path")
+		if of == "noHandlers" {
+			empty := true
+			for _, cl := range c.Classes {
+				empty = empty && len(expected(cl)) > 0
+			}
+			mark(labels, empty, "workdir_earlier_run_on_an_empty_directory")
+		}
+	}
 	mark(labels, len(c.Prefixes) > 0, "aggregate_prefixes")
 	for _, f := range c.Flags {
 		labels["cli_flag_"+f] = true
@@ -1945,7 +2187,7 @@ func classify(c Case) pbt.Verdict {
 
 func init() {
 	pbt.SetProperty("C12")
-	pbt.Describe("rapid-generated Spring-style projects of 1-6 types, one public type per file (flat directory or mNN/src/main/java/<package>/ layout), any file order, now and then a class of the unnamed package: controllers (@RestController / @Controller, bare or with a bean name argument, then optionally @RequestMapping(\"/b\"), @RequestMapping(value = \"/b\" [, produces = ...]) or a class-level mapping that gives no path), classes without controller annotation (none, @Service, @Component, @ControllerAdvice, @RestControllerAdvice, @FeignClient ..., now and then with a class-level @RequestMapping) and interfaces whose methods nevertheless carry mapping annotations, handlers with @Get/@Post/@Put/@DeleteMapping with path (also \"\" and a path without leading slash; paths and base paths drawn from a plain pool, from spellings of the URI-template family - \"{id}\", \"{id}/lines/{line}\", \"{id}/edit\", \"items/{id}\", \"{id:[0-9]+}\", \"{id:[0-9]{1,3}}\", \"{a},{b}\", \"${api.orders}\", \"{*rest}\", \"/**\", \"/Orders({id})\", \"(all)\", \"[x]\", trailing slash - or composed of 1-3 segments, each a literal, a template variable (plain, with pattern, catch-all, ${property} placeholder) or a mix of both, with or without leading and trailing slash, in every mapping form and at class level), without path (bare, (), or only produces=/consumes=... pairs) and with value = \"/p\", @RequestMapping(value = \"/p\", method = RequestMethod.X | X by static import | {RequestMethod.X}) with the pairs in either order and a further pair first, in the middle or last, 0-4 parameters (plain, @PathVariable with and without name, @RequestParam(...), @RequestHeader, @Valid, @RequestBody with and without @Valid / final / (required = false) in both orders, at any position), further annotations before and after the mapping annotation (@ResponseBody, @ResponseStatus(..), @PreAuthorize(..), @ApiOperation(value = ..) ...), further type annotations before, between and after controller annotation and class-level mapping, non-handler methods (plain, @Override, @MessageMapping & co., now and then with a @RequestBody parameter) and annotated fields interleaved, overloaded handler names, two handlers with the same verb and path, handler bodies with calls, lambdas, an anonymous class or annotated locals, extends/implements clauses (also of an interface of the project), a second package-private class before or after the controller in its file, optional field and constructor, modifiers other than public, annotations and signature on one line, two layouts. Checklist audit, each shape behind its own draw: @RequestMapping(method = RequestMethod.PATCH | HEAD | OPTIONS | TRACE) in the forms with method=; packages of one segment, with _ $ digits and non-ASCII letters, very long, a prefix or longer variant of another package, with segments that resemble the directories coca's file filter treats specially (test.java, testdata, tests) or equal an annotation name; class names with the words Test / Tests at the beginning, in the middle and in lower case at the end (Contest, Attests; names ending in Test or Tests stay out: the file filter drops *Test.java), with $ _ digits, non-ASCII letters, one letter, very long; method and parameter names of one letter, with $ _ non-ASCII, very long, equal to value / method / path / RequestMapping / GET / requestBody; qualified, inner and annotated body types (com.acme.dto.OrderDto, Order.Dto, List<@Valid OrderDto>), further return types, generic methods (<T>, <T extends Comparable<T>>), a variable-arity last parameter that is no body (plain or @RequestParam, also as the only parameter), parameters with @RequestPart / @RequestAttribute / @CookieValue / @ModelAttribute; non-handler methods with annotations whose names contain, begin or end with the name of a mapping annotation (@PatchMapping, @GetMappings, @MyGetMapping, @GetMappingDoc, @RequestMappingInfo, @XRequestMapping, @Mapping, @Getmapping) and classes without controller annotation that carry @RestControllerEndpoint, @ControllerEndpoint, @Controllers, @NotAController; an annotation that holds annotations after the mapping; enums (with annotated methods) and annotation types (elements value / path / method) as further types; mapping annotations at method and class level with blanks inside the parentheses and around commas, over several lines with a line comment, with block comments between the tokens; one parameter per line, blanks inside empty parentheses; Javadoc and comments with annotation-like text before and between annotations and signature, in handler bodies (string literal, line and block comment); paths that resemble syntax (/users/@me, /search?method=GET&value={v}, /a//b, /value=/x, http://host:8080/abs, /RequestMethod.GET) and, for api and seq, paths with blanks and a tab; files with CRLF line ends, without final newline, with leading blank lines, with trailing blank lines, with a comment line of 5000 or 70000 bytes; the Spring imports as wildcard, one by one, both and repeated, or absent; 7-14 classes in a project and 6-40 methods in one class now and then; further files that hold no class (.gitignore with the usual patterns plus files it ignores, README.md with a controller in a code fence, pom.xml, *.java.txt, *.java.bak, *.javax, *.kt, application.properties, package-info.java with a package annotation); the directory passed with a trailing slash; sub-check cli: options as -p DIR, --path DIR or --path=DIR, the directory relative to the working directory, -d with the default dependence file. Every file is validated with the shipped parser (a rejection aborts the run as a harness bug). Oracle: list of (verb, base+path, body type without blanks, package, class, method) by construction, compared as a multiset with JavaApiApp.AnalysisPath fed by the identifier and full passes as cmd/api.go does (sub-check api) and with coca_reporter/apis.json of `coca analysis` + `coca api -f [-c] [-s] [-a PREFIX] [-r PKG]` (sub-check cli; api.csv must show the entries of apis.json row by row, those under PREFIX with -a); metamorphic clause: the entries of every controller are identical in the whole project, alone, and in random sub-projects with other file orders; sub-check seq: 2-4 scans of the whole project and of sub-projects one after the other in one process without resetting package state: every scan returns the list of the project scanned and no list returned earlier changes; FilterApiByPrefix on the returned list keeps exactly the entries under the prefix, everything for the empty prefix, and does not change the list it is given. Non-trivial = at least one controller with and one without class-level base path in the project; distinct = hash of the description.",
+	pbt.Describe("rapid-generated Spring-style projects of 1-6 types, one public type per file (flat directory or mNN/src/main/java/<package>/ layout), any file order, now and then a class of the unnamed package: controllers (@RestController / @Controller, bare or with a bean name argument, then optionally @RequestMapping(\"/b\"), @RequestMapping(value = \"/b\" [, produces = ...]) or a class-level mapping that gives no path), classes without controller annotation (none, @Service, @Component, @ControllerAdvice, @RestControllerAdvice, @FeignClient ..., now and then with a class-level @RequestMapping) and interfaces whose methods nevertheless carry mapping annotations, handlers with @Get/@Post/@Put/@DeleteMapping with path (also \"\" and a path without leading slash; paths and base paths drawn from a plain pool, from spellings of the URI-template family - \"{id}\", \"{id}/lines/{line}\", \"{id}/edit\", \"items/{id}\", \"{id:[0-9]+}\", \"{id:[0-9]{1,3}}\", \"{a},{b}\", \"${api.orders}\", \"{*rest}\", \"/**\", \"/Orders({id})\", \"(all)\", \"[x]\", trailing slash - or composed of 1-3 segments, each a literal, a template variable (plain, with pattern, catch-all, ${property} placeholder) or a mix of both, with or without leading and trailing slash, in every mapping form and at class level), without path (bare, (), or only produces=/consumes=... pairs) and with value = \"/p\", @RequestMapping(value = \"/p\", method = RequestMethod.X | X by static import | {RequestMethod.X}) with the pairs in either order and a further pair first, in the middle or last, 0-4 parameters (plain, @PathVariable with and without name, @RequestParam(...), @RequestHeader, @Valid, @RequestBody with and without @Valid / final / (required = false) in both orders, at any position), further annotations before and after the mapping annotation (@ResponseBody, @ResponseStatus(..), @PreAuthorize(..), @ApiOperation(value = ..) ...), further type annotations before, between and after controller annotation and class-level mapping, non-handler methods (plain, @Override, @MessageMapping & co., now and then with a @RequestBody parameter) and annotated fields interleaved, overloaded handler names, two handlers with the same verb and path, handler bodies with calls, lambdas, an anonymous class or annotated locals, extends/implements clauses (also of an interface of the project), a second package-private class before or after the controller in its file, optional field and constructor, modifiers other than public, annotations and signature on one line, two layouts. Checklist audit, each shape behind its own draw: @RequestMapping(method = RequestMethod.PATCH | HEAD | OPTIONS | TRACE) in the forms with method=; packages of one segment, with _ $ digits and non-ASCII letters, very long, a prefix or longer variant of another package, with segments that resemble the directories coca's file filter treats specially (test.java, testdata, tests) or equal an annotation name; class names with the words Test / Tests at the beginning, in the middle and in lower case at the end (Contest, Attests; names ending in Test or Tests stay out: the file filter drops *Test.java), with $ _ digits, non-ASCII letters, one letter, very long; method and parameter names of one letter, with $ _ non-ASCII, very long, equal to value / method / path / RequestMapping / GET / requestBody; qualified, inner and annotated body types (com.acme.dto.OrderDto, Order.Dto, List<@Valid OrderDto>), further return types, generic methods (<T>, <T extends Comparable<T>>), a variable-arity last parameter that is no body (plain or @RequestParam, also as the only parameter), parameters with @RequestPart / @RequestAttribute / @CookieValue / @ModelAttribute; non-handler methods with annotations whose names contain, begin or end with the name of a mapping annotation (@PatchMapping, @GetMappings, @MyGetMapping, @GetMappingDoc, @RequestMappingInfo, @XRequestMapping, @Mapping, @Getmapping) and classes without controller annotation that carry @RestControllerEndpoint, @ControllerEndpoint, @Controllers, @NotAController; an annotation that holds annotations after the mapping; enums (with annotated methods) and annotation types (elements value / path / method) as further types; mapping annotations at method and class level with blanks inside the parentheses and around commas, over several lines with a line comment, with block comments between the tokens; one parameter per line, blanks inside empty parentheses; Javadoc and comments with annotation-like text before and between annotations and signature, in handler bodies (string literal, line and block comment); paths that resemble syntax (/users/@me, /search?method=GET&value={v}, /a//b, /value=/x, http://host:8080/abs, /RequestMethod.GET) and, for api and seq, paths with blanks and a tab; files with CRLF line ends, without final newline, with leading blank lines, with trailing blank lines, with a comment line of 5000 or 70000 bytes; the Spring imports as wildcard, one by one, both and repeated, or absent; 7-14 classes in a project and 6-40 methods in one class now and then; further files that hold no class (.gitignore with the usual patterns plus files it ignores, README.md with a controller in a code fence, pom.xml, *.java.txt, *.java.bak, *.javax, *.kt, application.properties, package-info.java with a package annotation); the directory passed with a trailing slash; sub-check cli: options as -p DIR, --path DIR or --path=DIR, the directory relative to the working directory, -d with the default dependence file; the working directory fresh or, in 3 of 7 cases, with a past of 1-2 steps: an earlier `coca analysis` + `coca api` (with or without -f, with or without -c -s -a -r) on the whole project, on a sub-project, on the classes of the project that have no handlers (an empty directory when there are none) or on a fixed project of another code base, that project lying in a directory of its own or at the path of the judged project (an older state of it, replaced before the judged commands), and files left in coca_reporter (apis.json holding the list of the other code base, null, [], the first half of a list or nothing; a stale api.csv; a stale api.dot); now and then `coca api` without -f where the working directory holds no apis.json to read back. Every file is validated with the shipped parser (a rejection aborts the run as a harness bug). Oracle: list of (verb, base+path, body type without blanks, package, class, method) by construction, compared as a multiset with JavaApiApp.AnalysisPath fed by the identifier and full passes as cmd/api.go does (sub-check api) and with coca_reporter/apis.json of `coca analysis` + `coca api -f [-c] [-s] [-a PREFIX] [-r PKG]` (sub-check cli; api.csv must show the entries of apis.json row by row, those under PREFIX with -a; both whatever the working directory held before); metamorphic clause: the entries of every controller are identical in the whole project, alone, and in random sub-projects with other file orders; sub-check seq: 2-4 scans of the whole project and of sub-projects one after the other in one process without resetting package state: every scan returns the list of the project scanned and no list returned earlier changes; FilterApiByPrefix on the returned list keeps exactly the entries under the prefix, everything for the empty prefix, and does not change the list it is given. Non-trivial = at least one controller with and one without class-level base path in the project; distinct = hash of the description.",
 		"not generated (ambiguous expected value or outside the quantifier): bare class-level @RequestMapping, method-level @RequestMapping without method=, controller annotation after the class-level mapping, nested and local classes, handlers inherited from interfaces, several @RequestBody parameters, path= instead of value=, array-valued paths, several verbs in method={..}, path constants and concatenations, fully qualified annotation names, paths whose Java literal needs an escape (quote, backslash: the expected text would depend on reading the literal or its source text), a @RequestBody on a variable-arity parameter, several top-level types with mapping annotations in one file, classes named *Test / *Tests and directories src/test/java and testData (coca's file filter treats them as test code; the statement does not say), source files matched by .gitignore, files with a byte order mark (the shipped parser rejects them)",
 		"a method annotated with an annotation that is not one of Get/Post/Put/Delete/RequestMapping contributes nothing, whatever its name resembles (@PatchMapping included: the statement lists the five annotations); a class annotated with anything but @RestController / @Controller contributes nothing",
 		"the HTTP verb of @RequestMapping(method = RequestMethod.X) is X for every constant of RequestMethod (GET, HEAD, POST, PUT, PATCH, DELETE, OPTIONS, TRACE)",
@@ -1954,6 +2196,7 @@ func init() {
 		"base path and method path are concatenated as written (no slash normalisation): the statement says 'base path followed by the method's path'",
 		"FilterApiByPrefix / `coca api -a PREFIX` (named in the property's anchors) is taken to keep exactly the entries whose URI starts with PREFIX",
 		"a `coca` sub-process that does not end within the time limit of the harness (120 s) is counted (cli_timeout) and the case skipped: the statement does not speak of running time",
+		"`coca api -f` extracts the list anew, so nothing an earlier run left in coca_reporter may show in its apis.json or api.csv; without -f the same holds when coca_reporter holds no apis.json (cmd/api.go then extracts as with -f). What the earlier commands of a generated past print or return is not judged (counter cli_history_run_failed counts those that ended with an error); with an apis.json present and no -f the command reports the cached list by design: not generated",
 		"package state is reset with the verif hooks before every project scan of the sub-checks api and cli, so that a scan corresponds to a fresh process; sub-check seq resets once per case")
 	pbt.Register("api", 300, 2000, genCase, func(c Case) pbt.Verdict { return check(c, false) })
 	pbt.Register("seq", 100, 600, genSeqCase, checkSeq)
